@@ -6,6 +6,7 @@ use crate::{CelError, CelResult};
 
 thread_local! {
     static COMPILE_TIME: Cell<bool> = Cell::new(false);
+    static RUNTIME_INPUT_REQUESTED: Cell<bool> = Cell::new(false);
 }
 
 /// While alive, reading the clock on this thread is an error. The compiler
@@ -13,17 +14,33 @@ thread_local! {
 /// `timestamp()` are never frozen into a compiled program.
 pub struct NoClockGuard {
     prev: bool,
+    prev_requested: bool,
 }
 
 pub fn forbid_clock() -> NoClockGuard {
     NoClockGuard {
         prev: COMPILE_TIME.with(|c| c.replace(true)),
+        prev_requested: RUNTIME_INPUT_REQUESTED.with(|c| c.replace(false)),
+    }
+}
+
+impl NoClockGuard {
+    /// True when, since this guard was created, the evaluation asked for
+    /// something only a run-time environment has: the clock, or a name that is
+    /// not bound while compiling. The refusal is an error that a construct
+    /// tolerating a failed operand (a match arm, a macro that turns a failed
+    /// body into a value) can absorb: the result of such an evaluation still
+    /// depends on the run-time input and must not be kept as a constant.
+    pub fn runtime_input_requested(&self) -> bool {
+        RUNTIME_INPUT_REQUESTED.with(|c| c.get())
     }
 }
 
 impl Drop for NoClockGuard {
     fn drop(&mut self) {
         COMPILE_TIME.with(|c| c.set(self.prev));
+        // an enclosing guard has seen the request too
+        RUNTIME_INPUT_REQUESTED.with(|c| c.set(self.prev_requested || c.get()));
     }
 }
 
@@ -32,9 +49,18 @@ pub fn folding_constants() -> bool {
     COMPILE_TIME.with(|c| c.get())
 }
 
+/// Called where the evaluation of a constant sub-expression meets a name that
+/// may be bound at run time (a variable, a function, a method).
+pub fn note_runtime_input() {
+    if folding_constants() {
+        RUNTIME_INPUT_REQUESTED.with(|c| c.set(true));
+    }
+}
+
 /// The current time, unless a constant is being evaluated by the compiler.
 pub fn now() -> CelResult<DateTime<Utc>> {
     if COMPILE_TIME.with(|c| c.get()) {
+        RUNTIME_INPUT_REQUESTED.with(|c| c.set(true));
         Err(CelError::runtime(
             "The clock cannot be read while compiling",
         ))
